@@ -25,7 +25,8 @@ META = dict(
          "(type, payload) list must equal the sent list and the receiver must end waiting at end of stream. "
          "The GCM invocation counter must advance by exactly one per packet on both sides. An independent receiver "
          "built from cryptography/hmac/zlib, keyed with the captured keys, must decode the same list with valid "
-         "MACs. A sample of full client/server sessions (real kex, renegotiate_keys, compression) compares the "
+         "MACs. Concurrent senders: 2-4 threads through one Packetizer over a chunked, stalling socket, decoded by a real "
+         "receiver (no failure, every message once, in packet-computation order). A sample of full client/server sessions (real kex, renegotiate_keys, compression) compares the "
          "sender's tap with the receiver's tap in both directions. Holds on the executions produced.",
     note="Trusts cryptography/OpenSSL, hmac, zlib and the harness socket. Streams are drawn at random within the "
          "stated classes, not enumerated; one direction per bench stream.",
@@ -353,6 +354,110 @@ def full_session(ctx, rng, cipher, mac, comp, n_rekeys):
         P.close()
 
 
+# ---------------------------------------------------------------------------
+# concurrent senders on one Packetizer, decoded by a real receiver
+# ---------------------------------------------------------------------------
+def concurrent_stream(ctx, rng, idx, cipher, mac, comp, role, nthreads, phases):
+    """2-4 threads send through ONE real Packetizer (no outer tap lock) over a socket that takes a packet in several
+    yielding send() calls and regularly stalls after the first byte of a write, i.e. a sender is held between having
+    computed its packet (sequence number, cipher stream, MAC advanced) and getting it onto the wire while others want
+    to send.  A real, identically keyed receiver decodes what the socket accepted: no failure, every message exactly
+    once, in the order the packets were computed, each thread's messages in its own order.  Key switches between
+    phases (main thread)."""
+    import struct as _st
+    import sys
+    from paramiko.message import Message
+
+    strict = rng.random() < 0.3
+    b = pb.Bench(rng, cipher, mac, comp, sender_role=role, strict=strict, hash_name=rng.choice(pb.HASHES),
+                 rev=pb.draw_reverse(rng, idx, BYFAM), tap_factory=pb.make_concurrent_tap)
+    sock = b.sock
+    pk = b.t.packetizer
+    sent_all = []
+    wit = dict(kind="concurrent senders", cipher=cipher, mac=mac, comp=comp, role=role, threads=nthreads, phases=phases)
+    mode = mode_of(cipher, mac)
+    for ph in range(phases):
+        sock.calls = None
+        sock.chunk_limit = sock.yield_s = sock.stall_every = None
+        b.rekey()
+        if ph == 0 and comp == "zlib@openssh.com":
+            b.auth()
+        sock.calls = sock.calls if sock.calls is not None else []
+        sock.chunk_limit = rng.choice([1, 5, 16, 64])
+        sock.yield_s = rng.choice([0, 0, 0.00005])
+        sock.stall_every = rng.choice([3, 5, 9])
+        sock.stall_s = rng.choice([0.001, 0.003])
+        sock.observer = lambda: pk.inflight
+        per = rng.randint(3, 10)
+        plans = [[bytes([pb.rand_type(rng)]) + _st.pack(">BBI", ph, t, i)
+                  + pb.rand_payload(rng, rng.choice([1, 9, 40, 200]), comp != "none") for i in range(per)]
+                 for t in range(nthreads)]
+        errors = []
+        gate = threading.Barrier(nthreads)
+
+        def worker(t, plans=plans, errors=errors, gate=gate):
+            try:
+                gate.wait(30)
+                for msg in plans[t]:
+                    b.t._send_message(Message(msg))
+            except Exception as e:  # noqa
+                errors.append(e)
+
+        old_si = sys.getswitchinterval()
+        sys.setswitchinterval(1e-4)
+        try:
+            ths = [threading.Thread(target=worker, args=(t,), daemon=True) for t in range(nthreads)]
+            for th in ths:
+                th.start()
+            for th in ths:
+                th.join(120)
+        finally:
+            sys.setswitchinterval(old_si)
+        if any(th.is_alive() for th in ths):
+            ctx.count("concurrent_streams_abandoned")
+            return
+        if errors:
+            ctx.violation("concurrent senders: send_message raised %s" % core.exc_signature(errors[0]), repr(errors[0]), wit)
+            return
+        sent_all.append(plans)
+        packets, _ = pb.judge_write_ledger(sock.calls)
+        ctx.count("packets_written_while_another_sender_was_waiting", sum(1 for p_ in packets if p_["inflight"] >= 2))
+        ctx.count("concurrent_first_sends_stalled", sock.stalls)
+        sock.stalls = 0
+    sock.chunk_limit = sock.yield_s = sock.stall_every = None
+    order = list(pk.build_order)
+    rx = b.receiver()
+    frag, cuts = pb.frag_named(rng, rng.choice(["whole", "small", "random"]))
+    outcome = rx.drain(b.wire(), frag=frag, cuts=cuts)
+    ctx.count("concurrent_streams_decoded")
+    ctx.count("concurrent_streams_%s" % mode)
+    ctx.count("concurrent_messages_delivered", len(rx.delivered))
+    got = rx.delivered
+    wit.update(outcome=str(outcome), delivered=len(got), computed=len(order))
+    data_sent = sorted(m for plans in sent_all for pl in plans for m in pl)
+    data_got = sorted(g for g in got if g[:1] not in (bytes([pb.T_NEWKEYS]), bytes([pb.T_AUTH_SUCCESS])))
+    if outcome[0] == "exc":
+        ctx.violation("concurrent senders: receiver failed on the accepted stream: %s [mode=%s]"
+                      % (core.exc_signature(outcome[1]), mode),
+                      "read_message raised %r on what the socket accepted from concurrent senders" % (outcome[1],), wit)
+    elif data_got != data_sent:
+        ctx.violation("concurrent senders: messages lost, duplicated or altered [mode=%s]" % mode,
+                      "multiset of delivered messages differs from the messages sent", wit)
+    elif None not in order and len(order) == len(got) and got != order:
+        ctx.violation("concurrent senders: messages delivered in another order than their packets were computed [mode=%s]" % mode,
+                      "delivered order != order of sequence-number assignment", wit)
+    else:
+        for ph, plans in enumerate(sent_all):
+            for t in range(nthreads):
+                mine = [g for g in got if g[1:3] == bytes([ph, t]) and g in plans[t]]
+                if mine != plans[t]:
+                    ctx.violation("concurrent senders: one thread's messages delivered out of order [mode=%s]" % mode,
+                                  "per-sender order not preserved", wit)
+                    return
+        if order and None not in order and len(order) == len(got):
+            ctx.count("concurrent_streams_order_checked")
+
+
 def run(ctx):
     rng = ctx.rng
     suites = pb.offered_suites()
@@ -382,6 +487,26 @@ def run(ctx):
                               "send_message/_activate_outbound raised %r" % (e,), dict(plan=describe(p)))
                 continue
             judge_stream(ctx, rng, p, b)
+    # concurrent senders (every framing family, all compressions)
+    for j in range(ctx.pick(6, 60)):
+        fam = [f for f in pb.FAMILIES if BYFAM[f]][(j + ctx.shard) % 3]
+        c, m = rng.choice(BYFAM[fam])
+        comp = pb.COMPRESSIONS[(j // 3 + ctx.shard) % 3]
+        nt = 2 + (j + ctx.shard) % 3
+        ph = rng.randint(1, 2)
+        ctx.case(("conc", c, m, comp, nt, ph, j, ctx.shard), sample=dict(kind="concurrent senders", cipher=c, mac=m, comp=comp,
+                                                                        threads=nt, phases=ph) if j == 0 else None)
+        try:
+            concurrent_stream(ctx, rng, j, c, m, comp, rng.choice(["client", "server"]), nt, ph)
+        except Exception as e:
+            ctx.inconclusive("concurrent-sender harness error: %r" % (e,))
+    ctx.require("concurrent_streams_decoded", 30)
+    ctx.require("concurrent_streams_order_checked", 30)
+    ctx.require("packets_written_while_another_sender_was_waiting", 300)
+    ctx.require("concurrent_first_sends_stalled", 200)
+    for f in pb.FAMILIES:
+        if BYFAM[f]:
+            ctx.require("concurrent_streams_%s" % f, 8)
     # full sessions
     n_full = ctx.pick(3, 10)
     for k in range(n_full):
